@@ -770,6 +770,39 @@ proof {
                     }
 //@end
 
+
+// ---------- semantic::analyze: which lookup table a procedure body is analysed against
+//~assume (R13) `proc.statements.iter_mut().for_each(|stmt| stmt.analyze(lookup_table))` analyses every statement of the body in place, in order, with that table (iterator code, outside Verus); each statement's analysis is the verified `Statement::analyze`
+#[verifier::external_body]
+pub fn analyze_statements_loop(stmts: &mut Vec<Reference<Statement>>, table: &LookupTable)
+    requires forall|i: int| 0 <= i < old(stmts)@.len() ==> stmt_wf((#[trigger] old(stmts)@[i]).reference),
+    ensures body_post(old(stmts)@, final(stmts)@, *table),
+{ unimplemented!() }
+pub open spec fn body_post(o: Seq<Reference<Statement>>, n: Seq<Reference<Statement>>, table: LookupTable) -> bool {
+    o.len() == n.len() && forall|i: int| 0 <= i < o.len() ==> (#[trigger] o[i]).offset == n[i].offset && stmt_post(o[i].reference, n[i].reference, table)
+}
+/// "gets no diagnostic for any rule it does not violate": the body of a procedure is checked against the parameters and local variables of
+/// **its own** entry; a redeclared procedure (or one named like a type) has no entry of its own, its names are unknown, and its body is left alone
+pub open spec fn own_entry(pd: ProcedureDeclaration, range: Range<usize>, table: GlobalTable) -> Option<ProcedureEntry> {
+    match pd.name {
+        Some(name) => if gmap(table).contains_key(name.value@) { match gmap(table)[name.value@] { GlobalEntry::Procedure(pe) => if pe.range == range { Some(pe) } else { None }, GlobalEntry::Type(_) => None } } else { None },
+        None => None,
+    }
+}
+//@extract spl_frontend/src/table/semantic.rs :: fn analyze :: closure |(proc, range)|
+//@ rewrite proc_statements_loop range_ne
+//@ lift pub fn analyze_procedure(proc: &mut ProcedureDeclaration, range: Range<usize>, table: &GlobalTable)
+//@ sig
+    requires
+        forall|i: int| 0 <= i < old(proc).statements@.len() ==> stmt_wf((#[trigger] old(proc).statements@[i]).reference),
+        old(proc).name is Some ==> gmap(*table).contains_key(old(proc).name->0.value@),
+    ensures
+        own_entry(*old(proc), range, *table) is None ==> *final(proc) == *old(proc), //# analyze::a_body_without_an_entry_of_its_own_gets_no_semantic_diagnostics
+        own_entry(*old(proc), range, *table) is Some ==> body_post(old(proc).statements@, final(proc).statements@, LookupTable { local_table: Some(&own_entry(*old(proc), range, *table)->0.local_table), global_table: Some(table) }), //# analyze::a_body_is_checked_against_its_own_parameters_and_locals
+        final(proc).name == old(proc).name && final(proc).info == old(proc).info && final(proc).parameters == old(proc).parameters && final(proc).variable_declarations == old(proc).variable_declarations && final(proc).doc == old(proc).doc, //# analyze::nothing_but_the_statements_is_touched
+//@end
+//~assume every named procedure declaration finds an entry under its name (entered by the table builder, or an earlier declaration of that name): the `expect` in semantic::analyze
+//~not_decided the outer iteration of semantic::analyze over the global declarations (iter_mut/filter_map/for_each) and that `range` is the declaration's absolute token range
 //~not_decided declaration and main rules (table/build.rs: HashMap, closures), call rules for the number of arguments and the callee lookup (symbol table), named-variable rules (symbol table), therefore "a valid program gets no diagnostics at all"
 //~not_decided termination of the trait-dispatched recursion (exec_allows_no_decreases_clause): partial correctness
 pub proof fn witness_rules(r: Range<usize>) {
